@@ -26,7 +26,8 @@ using Track::byte;
 
 namespace gate {
 enum Kind : unsigned char { SCAN = 1, COPY, CRC_ID, CRC_DATA };
-constexpr unsigned MAXE = 20;
+constexpr unsigned MAXE = 12;
+unsigned probe;                // byte offset at which the contents of copied fields are compared (symbolic, fixed per run)
 unsigned char kind[MAXE];
 bool ok[MAXE];                 // SCAN: found; COPY: success
 unsigned long a[MAXE];         // SCAN: pattern searched for; COPY: n; CRC: residue
@@ -72,11 +73,13 @@ bool stub_copy_bytes(const Track::BitStream& bits, size_t& thisbit, size_t count
   const size_t adv = vf_nondet_u32();
   vf_assume(adv <= 16 * count);
   thisbit += success ? 16 * count : adv;                // a failed copy stops anywhere inside the field
-  if (!success) { const size_t got = adv / 16; const size_t old = out->size(); out->resize(old + got); for (size_t i = 0; i < got; ++i) (*out)[old + i] = gen(seed, i); return false; }
+  const size_t got = success ? count : adv / 16;
   const size_t old = out->size();
-  out->resize(old + count);
-  for (size_t i = 0; i < count; ++i) (*out)[old + i] = gen(seed, i);
-  return true;
+  out->resize(old + got);                               // value-initialised; only the bytes anybody looks at are given their values:
+  for (size_t i = 0; i < 6; ++i) if (i < got) (*out)[old + i] = gen(seed, i);                    // header bytes
+  if (probe < got) (*out)[old + probe] = gen(seed, probe);                                         // the compared byte
+  if (got >= 2) { (*out)[old + got - 2] = gen(seed, got - 2); (*out)[old + got - 1] = gen(seed, got - 1); }   // CRC bytes
+  return success;
 }
 bool stub_copy_fm_bytes(const Track::BitStream& bits, size_t& thisbit, size_t count, std::vector<byte> *out, bool)
 { return stub_copy_bytes(bits, thisbit, count, out); }
@@ -115,7 +118,12 @@ extern "C" void h_fm_gate(void)
 {
   std::vector<byte> track(64);
   Track::BitStream bits(track, 1, 2);
-  const bool verbose = vf_nondet_u8() & 1;
+  gate::probe = vf_nondet_u16() % 256;
+#ifdef GATE_VERBOSE
+  const bool verbose = true;
+#else
+  const bool verbose = false;
+#endif
   std::vector<Track::Sector> got = Track::decode_fm_track(bits, verbose);
 
   // replay the log
@@ -163,7 +171,7 @@ extern "C" void h_fm_gate(void)
   vf_assume(!gate::too_many);
   vf_assert(protocol_ok, "the decoder consults its bit-level helpers in the order of the track format");
   vf_assert(got.size() == nwant, "exactly the records with a good ID CRC, a data (not deleted-data) mark and a good data CRC are yielded");
-  const unsigned probe = vf_nondet_u16();
+  const unsigned probe = gate::probe;
   for (unsigned i = 0; i < MAXSEC; ++i)
     if (i < nwant && i < got.size())
       {
